@@ -44,11 +44,19 @@ FACETS_REQUIRED = {t: ['fmt:' + f for f in refcamx.FORMATS] + ['dirA:ok']
 JOBS = {'quick': 8}
 
 
+SAMPLES = list(refcamx.FORMATS)
+
+
 def ncases(tier):
-    return N[tier]
+    return N[tier] + len(SAMPLES)
 
 
 def gen(rng, idx, tier, seed):
+    if idx >= N[tier]:
+        # the sample files bundled with the library (real model output,
+        # 4 rows x 5 columns)
+        return {'sample': SAMPLES[idx - N[tier]],
+                'fmt': SAMPLES[idx - N[tier]], 'ny': 4, 'nx': 5}
     fmt = refcamx.FORMATS[idx % len(refcamx.FORMATS)]
     spec = refcamx.gen_spec(rng, fmt)
     if fmt in ('uamiv', 'lateral_boundary') and rng.random() < 0.25 and \
@@ -207,7 +215,68 @@ def compare_decoded(d, c, spec, who):
     return problems
 
 
+def run_sample(spec, res):
+    """bundled sample: independent decoder vs library reader (direction B),
+    then library writer vs independent decoder (direction A)"""
+    from PseudoNetCDF.pncgen import pncgen
+    from PseudoNetCDF.testcase import camxfiles_paths
+    fmt = spec['fmt']
+    path = camxfiles_paths['vertical_diffusivity' if fmt == 'one3d'
+                           else fmt]
+    buf = open(path, 'rb').read()
+    problems = []
+    try:
+        c = refcamx.decode(fmt, buf, spec['ny'], spec['nx'])
+        res.hook('decoder.walk')
+    except Exception as e:
+        res.note('sample-not-decodable:%s' % fmt)
+        res.ev(digest(spec), False, ['sample:' + fmt, 'undecodable'])
+        return
+    spec = dict(spec, names=c.get('names', []))
+    try:
+        with harness.step_budget(2000000):
+            f = open_lib(fmt, path, spec)
+            res.hook('reader.return')
+            problems += compare_content(f, c, spec, res, 'reader(sample)')
+        with harness.casedir() as d:
+            out = os.path.join(d, 'out.' + fmt)
+            o = pncgen(f, out, format=fmt, verbose=0)
+            try:
+                o.close()
+            except Exception:
+                pass
+            res.hook('writer.return')
+            wrote = open(out, 'rb').read()
+        dec = refcamx.decode(fmt, wrote, spec['ny'], spec['nx'])
+        res.hook('decoder.walk')
+        for k, arr in c['vars'].items():
+            g = dec['vars'].get(k)
+            if g is None or g.shape != arr.shape or \
+                    g.tobytes() != arr.tobytes():
+                problems.append('writer(sample): variable %s of the written '
+                                'file is not the sample\'s' % k)
+        if dec['tflag'] != c['tflag'] or (c.get('etflag') and
+                                          dec.get('etflag') != c['etflag']):
+            problems.append('writer(sample): times %s / %s, sample %s / %s'
+                            % (dec['tflag'][:3], (dec.get('etflag') or [])[:3],
+                               c['tflag'][:3], (c.get('etflag') or [])[:3]))
+        if fmt in ('uamiv', 'lateral_boundary') and \
+                dec.get('names') != c.get('names'):
+            problems.append('writer(sample): species %s, sample %s'
+                            % (dec.get('names'), c.get('names')))
+    except harness.StepBudgetExceeded as e:
+        problems.append('reader did not terminate on the sample: %s' % e)
+    except Exception as e:
+        problems.append('sample %s: raised %r' % (fmt, e))
+    res.ev(digest(spec), True, ['sample:' + fmt, 'dirA:ok'])
+    if problems:
+        res.viol('sample-differs:' + fmt, '%s sample: %s' % (
+            fmt, '; '.join(problems[:4])), fmt=fmt, problems=problems[:8])
+
+
 def run(spec, res):
+    if spec.get('sample'):
+        return run_sample(spec, res)
     from PseudoNetCDF.pncgen import pncgen
     fmt = spec['fmt']
     img = refcamx.encode(spec)
